@@ -110,6 +110,7 @@ Definition step0 (s : st) (e : ev) : st * outcome :=
       | None => (s, ONone)
       end
   | EProc i => proc0 s i
+  | EProcF i _ => proc0 s i      (* API faults are not part of the pre-fix record *)
   end.
 
 Definition run0 (s : st) (h : list ev) : st := fold_left (fun s e => fst (step0 s e)) h s.
